@@ -44,7 +44,7 @@ JOBS = [
   # uncontracted side: real dr_pi_dag_enum_edges (dr_dump.c) + real dr_calc_edges (gen_stat.c) on one concrete dumped DAG
   Job("c18.enum_edges.%s.bounded" % nm, "c18_dump.c", "h_enum_edges", kind="bounded",
       replace_calls=["malloc:verif_malloc_pool", "exit:verif_exit"], cbmc=["--unwind", "16", "--unwinding-assertions", "--sat-solver", "cadical"], defines=["-DENUM_SCEN=%d" % sc],
-      fuc=["dr_pi_dag_enum_edges", "dr_pi_dag_count_edges_uncollapsed", "dr_pi_dag_node_first", "dr_pi_dag_node_last", "dr_calc_edges"], timeout=100,
+      fuc=["dr_pi_dag_enum_edges", "dr_pi_dag_count_edges_uncollapsed", "dr_pi_dag_node_first", "dr_pi_dag_node_last", "dr_calc_edges", "dr_calc_inner_delay"], timeout=600,
       note="bounded: one concrete dumped DAG of 14 nodes (child lists <= 4, every node kind), contraction state: %s; summaries of the created tasks and the resume kinds after the waits arbitrary" % what)
   for sc, nm, what in ((0, "materialised", "nothing contracted"), (1, "contracted_a", "section A (two creates) contracted"),
                        (2, "contracted_b", "section B (one create) contracted"), (3, "contracted_ab", "both sections contracted"))
